@@ -5,7 +5,7 @@ from . import build
 from .common import NCPU, scratch, Inconclusive
 
 ASAN_ENV = ('abort_on_error=0:halt_on_error=1:detect_leaks=1:allocator_may_return_null=1:'
-            'detect_stack_use_after_return=0:malloc_context_size=12:exitcode=99')
+            'detect_stack_use_after_return=0:malloc_context_size=12:exitcode=99:max_allocation_size_mb=2048')   # a request of tens of GB is refused at once (the library reports MEMORY) instead of mapping shadow for it
 UBSAN_ENV = 'print_stacktrace=1:halt_on_error=1:exitcode=98'
 
 
